@@ -785,3 +785,113 @@ Proof.
     match goal with |- _ = ?rhs => destruct rhs end; reflexivity.
 Qed.
 (* END *)
+
+(* ---------- arithmetic.rs: the elementwise and scalar drivers ---------- *)
+(* BEGIN Matrix_elementwise_operation *)
+Lemma map_res_pure {X Y} (f : X -> Y) (l : list X) : map_res (fun x => Val (f x)) l = Val (map f l).
+Proof. induction l as [|x l IH]; cbn [map_res map bind]; [reflexivity|]. rewrite IH. reflexivity. Qed.
+Lemma map_res_ext {X Y} (f g : X -> res Y) (l : list X) : (forall x, f x = g x) -> map_res f l = map_res g l.
+Proof. intros E. induction l as [|x l IH]; cbn [map_res]; [reflexivity|]. rewrite E, IH. reflexivity. Qed.
+
+(* the data of the three elementwise drivers, as translated, is the model's zip_data *)
+Lemma gen_zip_data {L R U} c (op : L -> R -> U) (a : matrix L) (b : matrix R) :
+  (if GOrder_eqb (m_order a) (m_order b)
+   then let* d := map_res (fun it => let '(l, r) := it in Val (op l r)) (combine (m_data a) (m_data b)) in Val d
+   else let* d := map_res (fun it => let '(index, l) := it in
+                     let* r1 := G_AxisIndex_from_flattened c index (m_shape a) in
+                     let* r2 := G_AxisIndex_swap c r1 in
+                     let* r3 := G_AxisIndex_to_flattened c r2 (m_shape b) in
+                     let* g := get_unchecked (m_data b) r3 in
+                     Val (op l g)) (zenumerate (m_data a)) in Val d)
+  = zip_data c op a b.
+Proof.
+  unfold zip_data, GOrder_eqb. destruct (order_eqb (m_order a) (m_order b)).
+  - rewrite (map_res_ext _ (fun p => Val (op (fst p) (snd p)))) by (intros [l r]; reflexivity). rewrite map_res_pure. reflexivity.
+  - unfold zenumerate, size.
+    rewrite (map_res_ext _ (fun il => let* rgt := rhs_at c a b (fst il) in Val (op (snd il) rgt))).
+    2:{ intros [index l]. cbn [fst snd]. unfold rhs_at, remap. rewrite gen_AxisIndex_from_flattened.
+      destruct (AxisIndex_from_flattened index (m_shape a)) as [i|w|w]; cbn [bind]; try reflexivity.
+      all: try (rewrite gen_AxisIndex_swap; cbn [bind]; rewrite gen_AxisIndex_to_flattened;
+                destruct (AxisIndex_to_flattened c (AxisIndex_swap i) (m_shape b)) as [j|w|w]; cbn [bind]; try reflexivity;
+                destruct (get_unchecked (m_data b) j); reflexivity). }
+    destruct (map_res _ _); reflexivity.
+Qed.
+
+Lemma gen_Matrix_elementwise_operation {L R U} c esU (a : matrix L) (b : matrix R) (op : L -> R -> U) : 0 <= imax c ->
+  G_Matrix_elementwise_operation c esU a b op = elementwise_operation c esU op a b.
+Proof.
+  intros Hc. unfold G_Matrix_elementwise_operation, elementwise_operation, is_ew_conformable.
+  rewrite gen_Matrix_ensure_elementwise_operation_conformable. cbn [bind mview f_Matrix_order f_Matrix_shape].
+  destruct (is_elementwise_conformable (m_order a) (m_shape a) (m_order b) (m_shape b)); cbn [negb]; [|reflexivity].
+  cbn [G_Matrix_size bind]. rewrite gen_Matrix_check_size by exact Hc. cbn [bind]. unfold size, vec_len, mview. cbn [f_Matrix_data].
+  destruct (check_size c esU (zlen (m_data a))); [|reflexivity].
+  cbv zeta. rewrite (gen_zip_data c op a b). destruct (zip_data c op a b); reflexivity.
+Qed.
+(* END *)
+(* BEGIN Matrix_elementwise_operation_consume_self *)
+Lemma gen_Matrix_elementwise_operation_consume_self {L R U} c esU (a : matrix L) (b : matrix R) (op : L -> R -> U) : 0 <= imax c ->
+  G_Matrix_elementwise_operation_consume_self c esU a b op = elementwise_operation c esU op a b.
+Proof.
+  intros Hc. unfold G_Matrix_elementwise_operation_consume_self, elementwise_operation, is_ew_conformable.
+  rewrite gen_Matrix_ensure_elementwise_operation_conformable. cbn [bind mview f_Matrix_order f_Matrix_shape].
+  destruct (is_elementwise_conformable (m_order a) (m_shape a) (m_order b) (m_shape b)); cbn [negb]; [|reflexivity].
+  cbn [G_Matrix_size bind]. rewrite gen_Matrix_check_size by exact Hc. cbn [bind]. unfold size, vec_len, mview. cbn [f_Matrix_data].
+  destruct (check_size c esU (zlen (m_data a))); [|reflexivity].
+  cbv zeta. rewrite (gen_zip_data c op a b). destruct (zip_data c op a b); reflexivity.
+Qed.
+(* END *)
+(* BEGIN Matrix_elementwise_operation_assign *)
+(* the assigning form writes through iter_mut().zip(..): the elements the zip reaches are replaced, the rest of the vector
+   stays; operands with equally many elements (coherent conformable operands, C01 / C12) are covered entirely *)
+Lemma gen_Matrix_elementwise_operation_assign {L R} c (a : matrix L) (b : matrix R) (op : L -> R -> L) :
+  zlen (m_data a) = zlen (m_data b) ->
+  G_Matrix_elementwise_operation_assign c a b op =
+    let* r := elementwise_operation_assign c op a b in Val (match r with Ok m' => (m', Ok tt) | Err e => (a, Err e) end).
+Proof.
+  intros Hlen. unfold G_Matrix_elementwise_operation_assign, elementwise_operation_assign, is_ew_conformable.
+  rewrite gen_Matrix_ensure_elementwise_operation_conformable. cbn [bind mview f_Matrix_order f_Matrix_shape].
+  destruct (is_elementwise_conformable (m_order a) (m_shape a) (m_order b) (m_shape b)); cbn [negb bind]; [|reflexivity].
+  unfold zip_data, GOrder_eqb. destruct (order_eqb (m_order a) (m_order b)).
+  - rewrite (map_res_ext _ (fun p => Val (op (fst p) (snd p)))) by (intros [l r]; reflexivity). rewrite map_res_pure. cbn [bind].
+    assert (zlen (map (fun p => op (fst p) (snd p)) (combine (m_data a) (m_data b))) = zlen (m_data a)) as E.
+    { unfold zlen in *. rewrite map_length, combine_length. lia. }
+    rewrite E. unfold zskipn, zlen. rewrite Nat2Z.id, skipn_all, app_nil_r. reflexivity.
+  - unfold zenumerate, size.
+    rewrite (map_res_ext _ (fun il => let* rgt := rhs_at c a b (fst il) in Val (op (snd il) rgt))).
+    2:{ intros [index l]. cbn [fst snd]. unfold rhs_at, remap. rewrite gen_AxisIndex_from_flattened.
+      destruct (AxisIndex_from_flattened index (m_shape a)) as [i|w|w]; cbn [bind]; try reflexivity.
+      all: try (rewrite gen_AxisIndex_swap; cbn [bind]; rewrite gen_AxisIndex_to_flattened;
+                destruct (AxisIndex_to_flattened c (AxisIndex_swap i) (m_shape b)) as [j|w|w]; cbn [bind]; try reflexivity;
+                destruct (get_unchecked (m_data b) j); reflexivity). }
+    destruct (map_res _ _); reflexivity.
+Qed.
+(* END *)
+(* BEGIN Matrix_scalar_operation *)
+Lemma map_res_pure_s {X Y} (f : X -> Y) (l : list X) : map_res (fun x => Val (f x)) l = Val (map f l).
+Proof. induction l as [|x l IH]; cbn [map_res map bind]; [reflexivity|]. rewrite IH. reflexivity. Qed.
+Lemma gen_Matrix_scalar_operation {L S U} c esU (a : matrix L) (s : S) (op : L -> S -> U) : 0 <= imax c ->
+  G_Matrix_scalar_operation c esU a s op = Val (scalar_operation c esU op a s).
+Proof.
+  intros Hc. unfold G_Matrix_scalar_operation, scalar_operation, map_matrix, retype.
+  cbn [G_Matrix_size bind]. rewrite gen_Matrix_check_size by exact Hc. cbn [bind]. unfold size, vec_len, mview. cbn [f_Matrix_data].
+  destruct (check_size c esU (zlen (m_data a))); [|reflexivity]. rewrite map_res_pure_s. reflexivity.
+Qed.
+(* END *)
+(* BEGIN Matrix_scalar_operation_consume_self *)
+Lemma map_res_pure_c {X Y} (f : X -> Y) (l : list X) : map_res (fun x => Val (f x)) l = Val (map f l).
+Proof. induction l as [|x l IH]; cbn [map_res map bind]; [reflexivity|]. rewrite IH. reflexivity. Qed.
+Lemma gen_Matrix_scalar_operation_consume_self {L S U} c esU (a : matrix L) (s : S) (op : L -> S -> U) : 0 <= imax c ->
+  G_Matrix_scalar_operation_consume_self c esU a s op = Val (scalar_operation c esU op a s).
+Proof.
+  intros Hc. unfold G_Matrix_scalar_operation_consume_self, scalar_operation, map_matrix, retype.
+  cbn [G_Matrix_size bind]. rewrite gen_Matrix_check_size by exact Hc. cbn [bind]. unfold size, vec_len, mview. cbn [f_Matrix_data].
+  destruct (check_size c esU (zlen (m_data a))); [|reflexivity]. rewrite map_res_pure_c. reflexivity.
+Qed.
+(* END *)
+(* BEGIN Matrix_scalar_operation_assign *)
+Lemma map_res_pure_a {X Y} (f : X -> Y) (l : list X) : map_res (fun x => Val (f x)) l = Val (map f l).
+Proof. induction l as [|x l IH]; cbn [map_res map bind]; [reflexivity|]. rewrite IH. reflexivity. Qed.
+Lemma gen_Matrix_scalar_operation_assign {L S} c (a : matrix L) (s : S) (op : L -> S -> L) :
+  G_Matrix_scalar_operation_assign c a s op = Val (scalar_operation_assign op a s).
+Proof. unfold G_Matrix_scalar_operation_assign, scalar_operation_assign. rewrite map_res_pure_a. reflexivity. Qed.
+(* END *)
